@@ -471,7 +471,21 @@ impl Property for C13 {
                         let prev_same = pos.map(|p| p > 0 && unf[p - 1].starts_with(&format!("{}:", g["transaction"]["hash"]))).unwrap_or(false);
                         // (judged for exact-script searches only: with an args-prefix key the entries of one transaction are
                         // not contiguous in key order and the same transaction legitimately re-appears per script)
-                        if prev_same && q.cut == 255 && q.key != 250 {
+                        // "exact" also means that no other script of the universe extends the search key (lock `aa` is a
+                        // prefix of `aa01` and `aa0102`, the empty args of everything, type `77` of `7701`)
+                        let key_raw = crate::lcv::oracle::index::raw_script(&key_script(q));
+                        let extended_by_another = if q.by_type {
+                            (0..N_TYPES).any(|i| {
+                                let r = crate::lcv::oracle::index::raw_script(&universe_type(i));
+                                r.len() > key_raw.len() && r.starts_with(&key_raw)
+                            })
+                        } else {
+                            (0..N_LOCKS).any(|i| {
+                                let r = crate::lcv::oracle::index::raw_script(&universe_lock(i));
+                                r.len() > key_raw.len() && r.starts_with(&key_raw)
+                            })
+                        };
+                        if prev_same && q.cut == 255 && q.key != 250 && !extended_by_another {
                             return Err(Failure::new("txs/one-transaction-split-into-two-adjacent-groups", describe(&h)));
                         }
                         obs.label("grouped:same-tx-split-across-pages(by a filtered-out entry)");
